@@ -1704,9 +1704,13 @@ impl Database {
 
                 for (col_idx, val) in updated_values.iter_mut().enumerate() {
                     if columns[col_idx].data_type().is_toastable() {
+                        // a value that looks like a TOAST pointer is stored out of line too
                         let needs_toast = match val {
                             OwnedValue::Text(s) => crate::storage::toast::needs_toast(s.as_bytes()),
-                            OwnedValue::Blob(b) => crate::storage::toast::needs_toast(b),
+                            OwnedValue::Blob(b) => {
+                                crate::storage::toast::needs_toast(b)
+                                    || crate::storage::toast::is_toast_pointer(b)
+                            }
                             _ => false,
                         };
                         if needs_toast {
